@@ -291,6 +291,88 @@ pub fn run(tier: Tier) -> i32 {
         }
     }
 
+    // scale: many axes and long axes; removal of each single axis, of (first, last), of (last, first) and of all but one axis
+    {
+        let sc: Vec<Vec<usize>> = crate::enumerate::scale_shapes(tier.pick(9, 11)).into_iter().filter(|s| s.len() >= 2).collect();
+        let res = par_each(&sc, |s| {
+            let d = s.len();
+            let x = RefArray::from_fn(s, |f, _| ((f * 5) % 977 + 1) as f64);
+            let scs = scs_from_ref(&x);
+            let mut lists: Vec<Vec<usize>> = (0..d).map(|a| vec![a]).collect();
+            lists.push(vec![0, d - 1]);
+            lists.push(vec![d - 1, 0]);
+            if d >= 3 {
+                lists.push((1..d).collect());
+                lists.push((0..d - 1).rev().collect());
+                lists.push(vec![d / 2, 0, d - 1]);
+            }
+            let mut viols: Vec<Viol> = Vec::new();
+            for list in &lists {
+                if list.len() >= d {
+                    continue;
+                }
+                let expect = x.marginalize(list);
+                let axes: Vec<Axis> = list.iter().map(|&a| Axis(a)).collect();
+                match catch(|| scs.marginalize(&axes).map(|r| ref_from_spectrum(&r)).map_err(|e| e.to_string())) {
+                    Ok(Ok(g)) if g == expect => {}
+                    other => {
+                        if viols.len() < 2 {
+                            viols.push((format!("C04|lib|joint-wrong|scale,{}axes", d.min(6)), format!("marginalize({list:?}) of shape {s:?}: {:?}, expected shape {:?}", other.map(|r| r.map(|g| g.shape)), expect.shape), case_j(s, list, "scale977")));
+                        }
+                    }
+                }
+            }
+            (lists.len() as u64, viols)
+        });
+        let mut ev = 0;
+        for (e, v) in res {
+            ev += e;
+            for (k, w, j) in v {
+                rep.violation(k, w, j);
+            }
+        }
+        rep.part(Part {
+            name: "lib: scale (many axes, long axes)".into(),
+            evaluations: ev,
+            nontrivial: ev,
+            note: format!("{} shapes with 6..{} axes of lengths {{1,2}}, 3^7, (2,3)^4 and axes of 255..4 097 entries: every single axis, (first,last) in both orders, all-but-first, all-but-last reversed, and a three-axis list", sc.len(), tier.pick(9, 11)),
+            exhaustive: true,
+            extra: vec![],
+        });
+    }
+
+    // large non-integer values: totals beyond 2^33, where one ulp of the total exceeds 1e-6
+    {
+        let mut n = 0u64;
+        for sh in [vec![3usize, 5], vec![2, 3, 4], vec![4, 1, 3, 2]] {
+            for scale in [1e6, 1e12, 1e18, 1e150] {
+                let x = RefArray::from_fn(&sh, |f, _| scale * (f + 1) as f64 / 7.0 + 0.1 * f as f64);
+                let scs = scs_from_ref(&x);
+                for list in ordered_lists(sh.len(), 1, sh.len() - 1) {
+                    n += 1;
+                    let expect = x.marginalize(&list);
+                    let axes: Vec<Axis> = list.iter().map(|&a| Axis(a)).collect();
+                    match catch(|| scs.marginalize(&axes).map(|r| ref_from_spectrum(&r)).map_err(|e| e.to_string())) {
+                        Ok(Ok(g)) if g.shape == expect.shape && g.data.iter().zip(&expect.data).all(|(a, b)| (a - b).abs() <= 1e-12 * b.abs()) => {}
+                        other => rep.violation(
+                            format!("C04|lib|large-values-wrong|{}", if matches!(other, Err(_)) { "panic" } else { "value" }),
+                            format!("marginalize({list:?}) of shape {sh:?} with entries of magnitude {scale:e}: {:?}", other.map(|r| r.map(|g| g.data.iter().take(4).cloned().collect::<Vec<_>>()))),
+                            case_j(&sh, &list, &format!("huge:{scale:e}")),
+                        ),
+                    }
+                }
+            }
+        }
+        rep.part(Part {
+            name: "lib: large non-integer values".into(),
+            evaluations: n,
+            nontrivial: n,
+            note: "3 shapes x entries scale*(i+1)/7 + 0.1 i for scale in {1e6, 1e12, 1e18, 1e150} x every ordered axis list: finite, within 1e-12 relative of the reference".into(),
+            exhaustive: true,
+            extra: vec![],
+        });
+    }
+
     // call histories of length 2: marginalize(A, axes a) directly followed by marginalize(B, axes b) on one thread
     {
         let mut calls: Vec<(Vec<usize>, Vec<usize>)> = Vec::new();
@@ -379,6 +461,15 @@ pub fn run(tier: Tier) -> i32 {
         vec![vec![3], vec![2, 3], vec![3, 2, 4], vec![2, 3, 2, 2], vec![2, 1, 3], vec![2, 2, 3, 1, 2]]
     };
     let mut cases: Vec<CliCase> = Vec::new();
+    // more than 8 axes: -M naming high axes, -m naming many
+    for s in [vec![2usize, 1, 2, 1, 2, 1, 2, 1, 3], vec![1, 2, 1, 2, 1, 1, 1, 2, 1, 2, 2]] {
+        let d = s.len();
+        for k in [vec![0, d - 1], vec![d - 1, 0], vec![d - 1], vec![d - 2, d - 1], vec![0], (0..d).step_by(2).collect::<Vec<_>>()] {
+            cases.push(CliCase { shape: s.clone(), flag: "-M", list: k });
+        }
+        cases.push(CliCase { shape: s.clone(), flag: "-m", list: (1..d - 1).collect() });
+        cases.push(CliCase { shape: s.clone(), flag: "-m", list: vec![d - 1, 0, d / 2] });
+    }
     for s in &cli_shapes {
         let d = s.len();
         // -m: all ordered lists of distinct axes (valid), plus invalid ones
@@ -442,9 +533,29 @@ pub fn replay(case: &J) -> Option<Vec<String>> {
         "c04-lib" => {
             let shape = case.get("shape")?.as_usizes()?;
             let lab = case.get("labeling")?.as_str()?.to_string();
-            let (_, _, v) = check_shape(&shape, &lab);
-            let (_, v2) = check_errors(&shape);
-            Some(v.into_iter().chain(v2).map(|(k, w, _)| format!("{k} :: {w}")).collect())
+            let cells: usize = shape.iter().product();
+            if cells <= 52 && shape.len() <= 5 && ["bits", "lin", "sq", "hash"].contains(&lab.as_str()) && !(lab == "sq" && case.get("history").is_some()) {
+                let (_, _, v) = check_shape(&shape, &lab);
+                let (_, v2) = check_errors(&shape);
+                return Some(v.into_iter().chain(v2).map(|(k, w, _)| format!("{k} :: {w}")).collect());
+            }
+            // beyond the small grid: exactly the recorded axis list on the recorded filling
+            let axes = case.get("axes")?.as_usizes()?;
+            let x = if lab == "scale977" {
+                RefArray::from_fn(&shape, |f, _| ((f * 5) % 977 + 1) as f64)
+            } else if let Some(sc) = lab.strip_prefix("huge:") {
+                let scale: f64 = sc.parse().ok()?;
+                RefArray::from_fn(&shape, |f, _| scale * (f + 1) as f64 / 7.0 + 0.1 * f as f64)
+            } else {
+                labeled(&shape, &lab)
+            };
+            let expect = x.marginalize(&axes);
+            let ax: Vec<Axis> = axes.iter().map(|&a| Axis(a)).collect();
+            let got = catch(|| scs_from_ref(&x).marginalize(&ax).map(|r| ref_from_spectrum(&r)).map_err(|e| e.to_string()));
+            Some(match got {
+                Ok(Ok(g)) if g.shape == expect.shape && g.data.iter().zip(&expect.data).all(|(a, b)| (a - b).abs() <= 1e-12 * b.abs()) => vec![],
+                other => vec![format!("C04|lib|joint-wrong :: marginalize({axes:?}) of shape {shape:?} ({lab}): {:?}", other.map(|r| r.map(|g| g.shape)))],
+            })
         }
         "c04-cli" => {
             let scratch = Scratch::new("c04r");
